@@ -28,8 +28,25 @@ CFG = {
              "exactness guard of constant alpha in modes 4/5 yields endpoints that promote to exactly a. NOT proved "
              "(float-dependent, explored by the opaque-lost oracle): that the alpha endpoint FIELDS of modes 4-7 are "
              "all ones for opaque multi-colour blocks (Quantization::pick_best, channel_round, rotated modes 4/5). "
+             "The discrete core of the BC7 encoder (Enc7.lean: Compressed::mode0..7 with BitStream, IndexList::compress_p1/"
+             "p2/p3, ensure_msb_zero, compress_single_index, merge2/3; the encoder's own promote / p_promote / interpolate "
+             "and weight tables; closest_rgb / closest_rgba / closest_alpha; Rotation::apply; BlockStats) is modelled and "
+             "proved for ALL inputs: bc7_writer_roundtrip - for every mode 0..7, every partition / rotation / index "
+             "selector, every endpoint tuple that fits the mode's bit widths, every p-bit choice and EVERY index list "
+             "(anchors not assumed normalised) the proved decoder (implementation-shaped and specification, C03x) applied "
+             "to the written block returns at each of the 16 pixels exactly interpolate(p_promote(e0), p_promote(e1), "
+             "index_i) over the subset of pixel i with rotation applied, i.e. the anchor fix-up (swap endpoints and "
+             "per-endpoint p-bits, invert the subset's indexes, drop the anchor's top bit) is invisible after decoding, "
+             "symbolically in every field (no _partial); bc7_encoder_palette_eq_decoder - the encoder's palette arithmetic "
+             "equals the decoder's for all arguments and the specification's on in-range ones, and is symmetric under "
+             "(swap endpoints, invert index); bc7_closest_is_argmin - closest_* is an exhaustive search with strict '<': "
+             "the first palette entry of least squared distance per pixel, error = sum of the chosen distances <= "
+             "16*4*255^2 < 2^32; bc7_mode6_keeps_palette_content - 16 pixels that are entries of a mode-6 palette (e.g. "
+             "the two promoted endpoints) decode exactly after writer o closest; bc7_writer_opaque - alpha endpoints that "
+             "are all ones (with p-bits 1) give alpha 255 at every pixel; bc7_block_stats_opaque - BlockStats::opaque() "
+             "iff every alpha is 255. "
              "NOT modelled: the f32/Oklab endpoint search, refinement, BC7 "
-             "partition/p-bit/endpoint search, dithering. Those are explored: dds::encode on generated images, every "
+             "partition/p-bit/endpoint CHOICE (their results are parameters of Enc7), dithering. Those are explored: dds::encode on generated images, every "
              "emitted block checked for Portable, decoded by dds::decode, by a Rust reference decoder written from "
              "the specification and by the Lean decoder models (driver), and the property's floors evaluated.",
     "note": "Trusted: Lean kernel + propext/Classical.choice/Quot.sound; Enc13.lean (hand-written model of the discrete "
@@ -38,6 +55,15 @@ CFG = {
             "p-bit candidates, rotations, constant-alpha guard; SNORM closest block; BC2 alpha bytes; border replication) "
             "are part of Enc13.lean and ARE reached by the differential tie on every run (bytes: Enc13.predictBlock; BC7 "
             "header fields of every emitted block against Enc13.bc7Rule, membership checked by the equal hook below); "
+            "Enc7.lean (hand-written model of the BC7 block writers, index-list compression, palette arithmetic and "
+            "closest_* search) is tied on every run: every BC7 block emitted for an RGBA8 image without dithering that is "
+            "not single-coloured and lies inside the image is re-derived WHOLE by Enc7.emit from its own endpoints / "
+            "p-bits / partition / rotation / selector and the original pixels (closest_* + merge + anchor fix-up + writer; "
+            "the orientation of each endpoint pair is the only freedom) and must be reproduced bit for bit; the encoder's "
+            "weight tables are re-parsed from the source; when the library has the verification hook "
+            "dds::verif_hook::bc7_write / bc7_closest (notes/hook_bc7_writer.patch) the writers and closest_* are also "
+            "compared directly on every mode x partition with all-anchors-set index lists (cases w7h / cl7h; without the "
+            "hook these cases are not generated); Drv/C13.lean fieldsOfBlock / orientations (parsers of the tie); "
             "F32.lean (software binary32) for the f32 expressions on these paths, proved equal to the closed forms on "
             "the whole 8-bit domain; the reading of 'within the endpoint quantisation step' on decoded 8-bit "
             "values (bound = largest gap between adjacent decoded endpoint levels; two-colour blocks: the same "
@@ -54,7 +80,10 @@ CFG = {
             "(RGBA16/RGBA32F/RGB8/GRAY8 input), half (f32 alpha exactly 0.5 and neighbours), a16 (BC2 explicit alpha: "
             "all 256 values, nibble boundaries, partial blocks), sx (SNORM constant channels 0/255/1/254/127/128), "
             "b7op/b7mix/b7ca/b7sa/b7g (BC7 opaque / mixed alpha / constant RGB / constant alpha / constant-alpha guard "
-            "of modes 4 and 5 for every alpha value, F/N/H/U); non-trivial = encoded "
+            "of modes 4 and 5 for every alpha value, F/N/H/U), b7m (BC7 two / three colour clusters along a partition, "
+            "F/N/H/U: the partitioned modes); w7e (encoder weight tables as source text); with the verification hook "
+            "w7h (Compressed::modeN on every mode x partition / rotation x selector, index lists all-max / all-zero / top "
+            "bit / alternating / random) and cl7h (closest_* incl. tying palettes); non-trivial = encoded "
             "and decoded (result starts with ok); distinct = distinct case lines",
     "explanation": "level other = partial: (1) proof obligations: the theorems of Theorems/C13.lean about the discrete "
                    "encoder logic, Portable and the floors, all inputs; (2) correspondence: for every emitted block the "
@@ -66,7 +95,8 @@ CFG = {
                    "partition / rotation / index-selection / p-bits / alpha endpoint fields read back from every emitted "
                    "block together with the constraint the discrete rules put on them (modes tried; p-bits (1,1) of "
                    "opaque subsets in modes 6 / 7; admissible rotations; endpoints of a constant separated channel in "
-                   "modes 4 / 5); the harness computes the same from dds::decode and Rust code (own bit reader) and the "
+                   "modes 4 / 5) and the whole block re-derived by the BC7 writer model Enc7.emit (tokens w7, cl7); the harness "
+                   "computes the same from dds::decode and Rust code (own bit reader; hashes of the emitted bytes) and the "
                    "equal hook checks that every emitted block meets the model's constraint; (3) oracle on freshly emitted "
                    "blocks: Portable; library decoder = reference decoder; single-colour floor (step bound; exact "
                    "for BC4/BC5/BC7/BC3 alpha); two-colour floor; opaque stays opaque; BC1 alpha threshold at 1/2. "
@@ -89,7 +119,9 @@ CFG = {
                      "compress_single_color/Compressed::mode5/BitStream, compress_bc7_block mode filter, compress_rgba "
                      "p-bit candidates, PBitHandling::pick_best, RotationSelect::get_forced_rotation/pick_best, "
                      "compress_mode4 C3A2 shortcut, compress_color_separate_alpha_with_rotation single-alpha branch, "
-                     "channel_round/floor/ceil); F32.lean; decoders: Bc.lean, BcSpec.lean, Bc7.lean, Bc7Spec.lean "
+                     "channel_round/floor/ceil); lean/DdsModel/DdsModel/Enc7.lean (bc7.rs BitStream, IndexList, "
+                     "Compressed::mode0..7, promote/p_promote/interpolate*, WEIGHTS_2/3/4, closest_rgb/rgba/alpha, "
+                     "Rotation::apply, BlockStats; bcn_data.rs sort_block); F32.lean; decoders: Bc.lean, BcSpec.lean, Bc7.lean, Bc7Spec.lean "
                      "(C03, C03x)"],
 }
 
@@ -121,17 +153,23 @@ def _b7_meets(obs, rule):
 
 
 def equal(a, b):
-    """a = implementation, b = model.  Everything must be textually equal except the last token of BC7 cases: the
+    """a = implementation, b = model.  Everything must be textually equal except the `b7` token (7th) of BC7 cases: the
     implementation prints the header fields of every emitted block (its own bit reader), the model prints
     `<the same fields read with its reader>@<what its discrete rules allow for the input block>`; the fields must be
-    textually equal and every block must meet its rule (membership, as for the `plan` sets of C16)."""
+    textually equal and every block must meet its rule (membership, as for the `plan` sets of C16).  The tokens after it
+    (`w7`: hash of every BC7 block re-written by `Enc7.write`; `cl7`: hash of the block `Enc7.emit` re-derives from the
+    emitted parameters and the original pixels) must be textually equal.
+    `no-hook`: a direct-tie case (`w7h`, `cl7h`; only generated when `dds::verif_hook::bc7_write` exists) read from a
+    corpus / replay file while the library under test has no hook - skipped, not compared."""
     if a == b:
         return True
+    if a == "no-hook":
+        return True
     ta, tb = a.split(" "), b.split(" ")
-    if len(ta) != len(tb) or len(ta) != 7 or ta[:-1] != tb[:-1] or "@" not in tb[-1]:
+    if len(ta) != len(tb) or len(ta) != 9 or ta[:6] != tb[:6] or ta[7:] != tb[7:] or "@" not in tb[6]:
         return False
-    obs, rules = tb[-1].split("@", 1)
-    if obs != ta[-1]:
+    obs, rules = tb[6].split("@", 1)
+    if obs != ta[6]:
         return False
     lo, lr = obs.split(";"), rules.split(";")
     return len(lo) == len(lr) and all(_b7_meets(x, y) for x, y in zip(lo, lr))
@@ -139,6 +177,8 @@ def equal(a, b):
 
 def classify(c, r):
     t = c.split(" ")
+    if t[0] in ("w7h", "cl7h", "w7e"):
+        return f"{t[0]} " + (t[1] if t[0] != "w7e" and len(t) > 1 else "-") + " " + (r.split(" ")[0] if r else "none")
     if len(t) < 8:
         return "malformed"
     return f"{t[0]} {t[1]} " + (r.split(" ")[0] if r else "none")
